@@ -80,8 +80,16 @@ def apply_op(c, tok):
         c.get_or_add_fork(unpct(f[1]))
     elif f[0] == 'elim':
         c.eliminate_1to1_forks()
-    elif f[0] == 'rd':      # not modelled (oracle only)
+    elif f[0] == 'rd':
         c.remove_dangling_nodes(c.nodes[int(f[1])])
+    elif f[0] == 'sub':
+        c.substitute(c.nodes[int(f[1])], circuit_from_spec(f[2]))
+    elif f[0] == 'res':     # a library object that has just what resolve_tlib_cells reads: cells[kind][0]
+        c.resolve_tlib_cells(StubLib({unpct(k): (circuit_from_spec(sp),) for k, sp in (e.split('=') for e in f[1].split('/') if e)}))
+    elif f[0] == 'rtl':     # the built-in library object itself (the model gets the implementations of the kinds in use)
+        with common.quiet(): c.resolve_tlib_cells(tlib_of(f[1]))
+    elif f[0] == 'st':
+        c = circuit_from_spec(f[1], 'h')
     elif f[0] == 'copy':
         c = c.copy()
     elif f[0] == 'pickle':
@@ -89,6 +97,38 @@ def apply_op(c, tok):
     else:
         raise ValueError(tok)
     return c
+
+
+NEW_OPS = ('sub', 'rd', 'res', 'rtl', 'st')      # operations of Model/CircObjSub.lean (Op2) + load
+
+
+def is_new(tok):
+    return tok.split(':')[0] in NEW_OPS
+
+
+class StubLib:
+    def __init__(self, cells): self.cells = cells
+
+
+def spec_of(c):
+    """pickle state of a circuit as part of a token: `name,kind|...;d.dp.r.rp|...;i,i` (every line has both ends)"""
+    nodes = '|'.join(f'{pct(n.name)},{pct(n.kind)}' for n in c.nodes)
+    lines = '|'.join(f'{l.driver.index}.{l.driver_pin}.{l.reader.index}.{l.reader_pin}' for l in c.lines)
+    return f"{nodes};{lines};{','.join(str(n.index) for n in c.io_nodes)}"
+
+
+def circuit_from_spec(spec, name='impl'):
+    from kyupy.circuit import Circuit
+    ns, ls, io = spec.split(';')
+    c = Circuit(name)
+    c.__setstate__({'name': name, 'nodes': [tuple(unpct(x) for x in e.split(',')) for e in ns.split('|') if e],
+                    'lines': [tuple(int(x) for x in e.split('.')) for e in ls.split('|') if e],
+                    'io_nodes': [int(x) for x in io.split(',') if x]})
+    return c
+
+
+def lib_spec(tlib, kinds):
+    return '/'.join(f'{pct(k)}={spec_of(tlib.cells[k][0])}' for k in kinds)
 
 
 def idx(x):
